@@ -132,7 +132,7 @@ func runC19(rc *RunCtx, i int) {
 		return ok && reflect.DeepEqual(want, row)
 	}
 	for k, q := range queries {
-		ctx, cancel := context.WithTimeout(context.Background(), 60*time.Second)
+		ctx, cancel := context.WithTimeout(context.Background(), core.Patience)
 		res := world.RunQuery(ctx, e, q)
 		cancel()
 		if res.QErr != nil || res.Err != nil {
@@ -287,7 +287,7 @@ func runC19(rc *RunCtx, i int) {
 				for _, q := range queries {
 					var res *world.QueryResult
 					if !guard("Query (malformed file, parsed metadata in MemoryMetaStore)", func() {
-						ctx, cancel := context.WithTimeout(context.Background(), 60*time.Second)
+						ctx, cancel := context.WithTimeout(context.Background(), core.Patience)
 						res = world.RunQuery(ctx, de, q)
 						cancel()
 					}) {
@@ -316,7 +316,7 @@ func runC19(rc *RunCtx, i int) {
 			}
 			var res *world.QueryResult
 			if !guard("Query (original metadata in MemoryMetaStore)", func() {
-				ctx, cancel := context.WithTimeout(context.Background(), 60*time.Second)
+				ctx, cancel := context.WithTimeout(context.Background(), core.Patience)
 				res = world.RunQuery(ctx, e, q)
 				cancel()
 			}) {
@@ -349,7 +349,7 @@ func runC19(rc *RunCtx, i int) {
 			os.WriteFile(filepath.Join(fsDir, "mutant.dat"), mut, 0o600)
 			var res *world.QueryResult
 			if !guard("Query (FileSystemDataStore scan)", func() {
-				ctx, cancel := context.WithTimeout(context.Background(), 60*time.Second)
+				ctx, cancel := context.WithTimeout(context.Background(), core.Patience)
 				res = world.RunQuery(ctx, fsEngine, queries[k/3%len(queries)])
 				cancel()
 			}) {
